@@ -453,12 +453,12 @@ def rawMime (rawTag rawMediatype : List Char) : List Char :=
 them; none of those bytes is `<` or `-`, so visiting them one at a time is the same.  Only the jumps over `!--` and
 `->` matter (`<!-->` does not leave the escaped state): `skip`. -/
 
-def isAlpha (c : Char) : Bool := ('a' ≤ c && c ≤ 'z') || ('A' ≤ c && c ≤ 'Z')
+def rawLetter (c : Char) : Bool := ('a' ≤ c && c ≤ 'z') || ('A' ≤ c && c ≤ 'Z')
 
-def lowerChar (c : Char) : Char := if 'A' ≤ c && c ≤ 'Z' then Char.ofNat (c.toNat + 32) else c
+def rawLower (c : Char) : Char := if 'A' ≤ c && c ≤ 'Z' then Char.ofNat (c.toNat + 32) else c
 
 /-- the letters at the head of `l`, lower-cased, are `name`: `ToHash(ToLower(letters)) == h` -/
-def wordIs (name : List Char) (l : List Char) : Bool := (l.takeWhile isAlpha).map lowerChar == name
+def wordIs (name : List Char) (l : List Char) : Bool := (l.takeWhile rawLetter).map rawLower == name
 
 def rawEnd (name : List Char) : Nat → Nat → Nat → List Char → Nat
   | _, _, pos, [] => pos
